@@ -47,7 +47,11 @@ def gen_input(rng):
         return {"fmt": "gff3", "feats": feats}
     feats = []
     while not feats:
-        feats = G.gtf_annotation(rng, {"max_genes": 2, "shuffle": rng.random() < 0.3})
+        cfg = {"max_genes": 2, "shuffle": rng.random() < 0.3}
+        if rng.random() < 0.15:
+            # a long chromosome: exons on both sides of 2**29, where the genomic-bin scheme ends
+            cfg["pool"] = [1, 100, (1 << 29) - 100, (1 << 29) - 1, (1 << 29) + 5, (1 << 29) + 100]
+        feats = G.gtf_annotation(rng, cfg)
     # the importer's documented options for GTF: either inference may be switched off
     kw = rng.choice([{}, {}, {"disable_infer_genes": True}, {"disable_infer_transcripts": True},
                      {"disable_infer_genes": True, "disable_infer_transcripts": True}])
